@@ -131,6 +131,22 @@ def _mod_selfpos(p):
     return [a], {a: V(a)}
 
 
+def _mod_ladder(p, k=3):
+    """a1 -> a1&a2 -> ... -> all, plus a shortcut: the motif {a_k, a_(k-1)} percolates straight to 'all'
+    (nodes that are first discovered through a short path and later through a longer one)."""
+    vs = [f"{p}l{i}" for i in range(k)]
+    top = vs[-1]
+    fs = {vs[0]: OR(V(vs[0]), V(top))}
+    for i in range(1, k - 1):
+        fs[vs[i]] = OR(AND(V(vs[i]), V(vs[i - 1])), V(top))
+    fs[top] = AND(V(top), V(vs[-2]))
+    return vs, fs
+
+
+def _mod_ladder4(p):
+    return _mod_ladder(p, 4)
+
+
 MODULES = [
     ("switch", _mod_switch, 4),
     ("inhib", _mod_inhib, 2),
@@ -140,6 +156,8 @@ MODULES = [
     ("maa2", _mod_maa2, 3),
     ("source", _mod_source, 2),
     ("xor", _mod_xor, 1),
+    ("ladder", _mod_ladder, 2),
+    ("ladder4", _mod_ladder4, 1),
 ]
 
 
@@ -222,6 +240,22 @@ def rings_net(rng: random.Random, nmax: int = 7):
             g = NOT(g)
         exprs[tgt] = AND(exprs[tgt], g) if rng.random() < 0.5 else OR(exprs[tgt], g)
     return rename_net(rng, net(names, exprs, "rings"))
+
+
+def maa_chain(rng: random.Random, k: int = 15):
+    """A motif-avoidant gadget driving a chain of k buffer variables (17-23 variables): large percolated
+    networks whose only attractor outside the minimal trap space is motif-avoidant. No explicit oracle is
+    possible at this size; used by the termination check only."""
+    vs, fs = (_mod_maa1 if rng.random() < 0.5 else _mod_maa2)("g")
+    names = list(vs)
+    exprs = dict(fs)
+    prev = rng.choice(vs)
+    for i in range(k):
+        c = f"ch{i:02d}"
+        exprs[c] = V(prev) if rng.random() < 0.8 else NOT(V(prev))
+        names.append(c)
+        prev = c
+    return net(names, exprs, "maa-chain")
 
 
 def overlap_maa(rng: random.Random, rename=True, variant=None):
